@@ -129,6 +129,63 @@ def _cmp(r, key, args, exp, got):
     return True
 
 
+def container_case(curve, group, fam):
+    """[(label, expected, observed)] points handed over as lists instead of tuples (the functions only unpack
+    their operands), alone and mixed with tuples of the same and of other points"""
+    d = params.curves()[curve]
+    E = d[group]
+    ref, opt = mods(curve)
+    M = ref if fam == "ref" else opt
+    cfg = field_cfg(curve, group, fam)
+    G = d["G1"] if group == "E1" else d["G2"]
+    Pm, Qm = E.mul(G, 5), E.mul(G, 9)
+    mk = (lambda X: ref_pt_(cfg, X)) if fam == "ref" else (lambda X: lib.opt_pt(cfg, X, cfg.F.el(3) if cfg.mc is None else None))
+    norm = (lambda X: lib.ref_norm(cfg, X)) if fam == "ref" else (lambda X: lib.opt_norm(cfg, X))
+    T, L, Q = mk(Pm), list(mk(Pm)), mk(Qm)
+    T2 = mk(Pm)  # an equal tuple built separately
+    cases = [("add(list, equal tuple)", lambda: M.add(L, T2), E.add(Pm, Pm)), ("add(tuple, equal list)", lambda: M.add(T2, L), E.add(Pm, Pm)),
+             ("add(list, same list)", lambda: M.add(L, L), E.add(Pm, Pm)), ("add(list, list of the same values)", lambda: M.add(L, list(T2)), E.add(Pm, Pm)),
+             ("add(list, other tuple)", lambda: M.add(L, Q), E.add(Pm, Qm)), ("add(other tuple, list)", lambda: M.add(Q, L), E.add(Pm, Qm)),
+             ("add(list, negated tuple)", lambda: M.add(L, M.neg(T)), None), ("double(list)", lambda: M.double(L), E.add(Pm, Pm)),
+             ("multiply(list, 5)", lambda: M.multiply(L, 5), E.mul(Pm, 5)), ("neg(list)", lambda: M.neg(L), E.neg(Pm)),
+             ("multiply(list, r)", lambda: M.multiply(L, d["r"]), E.mul(Pm, d["r"]))]
+    out = []
+    for lbl, f, want in cases:
+        try:
+            got = norm(f())
+        except Exception as e:  # noqa: BLE001
+            got = "raise " + type(e).__name__
+        out.append((lbl, want, got))
+    return out
+
+
+def ref_pt_(cfg, X):
+    return lib.ref_pt(cfg, X)
+
+
+def task_containers(a, env):
+    r = R("points-as-lists:%s" % a["curve"])
+    for group in ("E1", "E2"):
+        for fam in ("ref", "opt"):
+            for lbl, exp, got in container_case(a["curve"], group, fam):
+                r.ev += 1
+                r.dk.add((group, fam, lbl))
+                if exp != got:
+                    modname = PKG[a["curve"]][0 if fam == "ref" else 1].split(".")[-1]
+                    r.viol("C07:%s:%s:list-operand:%s" % (modname, group, lbl.split("(")[0]), "mc.props.C07_full:replay_containers",
+                           {"curve": a["curve"], "group": group, "fam": fam}, exp, got, note=lbl)
+    r.transitions = r.ev
+    r.sample({"curve": a["curve"], "case": "add([x, y], (x, y)) == double((x, y))"})
+    return r
+
+
+def replay_containers(a):
+    for lbl, exp, got in container_case(a["curve"], a["group"], a["fam"]):
+        if exp != got:
+            return {"case": lbl, "expected": exp, "observed": got}
+    return None
+
+
 def failing_calls(curve, fam):
     """history (results and exceptions ignored): curve functions called with operands they refuse or fail
     on - mixed groups, missing coordinates, non-integer scalars, coordinates of another extension degree"""
@@ -611,6 +668,8 @@ def plan(ctx):
             tasks.append(("full_bfs", {"curve": curve, "group": group,
                                        "depth": 4 if ctx.quick else 6}))
     tasks.append(("full_consts", {}))
+    for curve in ("bn128", "bls12_381"):
+        tasks.append(("containers", {"curve": curve}))
     ctx.bounds["full_size"] = {
         "groups": "E(Fp), E'(Fp2), E(Fp12) of bn128 and bls12_381, reference + optimized",
         "points": "O, G, 2G, 3G, -G, (r-2)G, seeded kG, lG, non-subgroup points, G+nonsub",
